@@ -202,6 +202,8 @@ static json run_one(json const& run, std::vector<std::string> const& inputs) {
   std::ostream out(&outbuf);
   // the state the caller's output stream is in when the writer gets it (a stream that was used for other output before)
   apply_ostream_state(out, run.value("ostate", 0));
+  // ... and the caller's input stream: state 7 = a stream on which its owner enabled exceptions (a common idiom)
+  if (run.value("ostate", 0) == 7) in.exceptions(std::ios::failbit | std::ios::badbit);
   std::string phase = "start";
   res["ok"] = true;
   try {
